@@ -277,13 +277,14 @@ func (l *forwardList) handleChannels(in <-chan NewChannel) {
 	}
 }
 
-// remove removes the forward entry, and the channel feeding its
-// listener.
-func (l *forwardList) remove(n, addr string) {
+// remove removes the forward entry of the listener fed by c, and closes
+// that channel. Several listeners may be registered for the same address;
+// only the entry that belongs to c is removed.
+func (l *forwardList) remove(n, addr string, c <-chan forward) {
 	l.Lock()
 	defer l.Unlock()
 	for i, f := range l.entries {
-		if n == f.network && addr == f.addr {
+		if n == f.network && addr == f.addr && (<-chan forward)(f.c) == c {
 			l.entries = append(l.entries[:i], l.entries[i+1:]...)
 			close(f.c)
 			return
@@ -357,7 +358,7 @@ func (l *tcpListener) Close() error {
 	}
 
 	// this also closes the listener.
-	l.conn.forwards.remove("tcp", l.addr)
+	l.conn.forwards.remove("tcp", l.addr, l.in)
 	ok, _, err := l.conn.SendRequest("cancel-tcpip-forward", true, Marshal(&m))
 	if err == nil && !ok {
 		err = errors.New("ssh: cancel-tcpip-forward failed")
